@@ -24,15 +24,16 @@ import (
 func TestMain(m *testing.M) { ev.Main(m) }
 
 const rule = "case = one fault state or schedule of the on-disk cache followed by lookups through a fresh cache.Open: " +
-	"(crash) the real Put killed by SIGKILL after k bytes of the copy pass (helper putter; every k for sizes 0,1,2,100, boundary k for 70000; chunk sizes 1,7,unlimited; pre-states fresh/older version/partial data file/index without data/same content), " +
-	"(strace) the same helper killed by strace fault injection before its N-th openat/write/ftruncate/close/utimensat/unlinkat for every N until it completes, " +
-	"(trunc/delete) every truncation length of every index file, a grid of truncation lengths of every data file, every subset of deleted files of a 6-entry cache, index x data pairs, " +
-	"(seq) rapid-generated sequences of put/crash-put/truncate/remove/age+Trim, " +
-	"(stress) rapid-generated op lists of 2..8 cachestress processes on one directory with pre-populated, damaged and aged entries, " +
-	"(e2e) staticcheck -f json on a generated two-package module with damaged real entries, after SIGKILL of a running staticcheck, and with concurrent runs plus a trimmer. " +
-	"Oracle: GetBytes/GetFile miss or return exactly a content stored under that key, consistent with the entry's size and output id; untouched entries hit; a later full Put succeeds and is served; staticcheck stdout and exit status equal the cold-cache reference. " +
-	"Non-trivial = at the time of a lookup at least one cache file existed in partial or orphaned form (short index, short data file, index pointing to missing/short data, data without index). " +
-	"Distinct by (sub-check, fault kind, file kind/content size, offset class, pre-state)."
+	"(crash) the real Put killed by SIGKILL after k bytes of the copy pass (helper putter; sizes 0,1,2,100 with every k, 70000 with boundary k; chunk sizes 1,7,1000,4096,unlimited; pre-states fresh / older version stored / partial data file / index without data / same content; also with an input that changes between the two passes), " +
+	"(strace) the same helper killed by strace fault injection on entering its N-th openat/write/ftruncate/close/utimensat/unlinkat for every N until it runs to completion, " +
+	"(trunc/delete) every truncation length 0..174 of every index file, every length (<=100 bytes) or a boundary grid of every data file, every subset of removed files of a 6-entry cache (11 files), index x data pairs, " +
+	"(seq) rapid-generated sequences of put / crash-put / truncate / remove / age+Trim on 3 keys, " +
+	"(stress) rapid-generated op lists of 2..8 cachestress processes on one directory with pre-populated, damaged and aged entries, released together, " +
+	"(trimrace) the two windows between obtaining a path and reading it, held open with strace delay injection, " +
+	"(e2e) staticcheck -f json on a generated two-package module: damaged real entries (file x {0,1,half,size-1,removed}), SIGKILL of a running staticcheck, 2..4 concurrent runs with a trimmer on fresh and on aged entries. " +
+	"Oracle: GetBytes/GetFile miss or return exactly a content stored under that key, consistent with the entry's size and output id; entries no fault touched still hit; a later full Put succeeds and is served; staticcheck stdout and exit status equal the cold-cache reference. " +
+	"Non-trivial = at the time of a lookup at least one cache file existed in partial or orphaned form (short index, short data file, index pointing to missing/short data, data without index), or several processes were active on the directory. " +
+	"Distinct by (sub-check, fault kind, file kind / content size, offset class, pre-state); schedules by their op lists."
 
 const entrySize = 175 // "v1 <64 hex> <64 hex> <20> <20>\n"
 
@@ -460,8 +461,12 @@ func (r Replay) bytes() []byte {
 	return b
 }
 
+// replayNote: set by replayOne when the replayed case reproduced a known finding.
+var replayNote string
+
 // replayOne evaluates one replay file and returns (violation message, infra message).
 func replayOne(r Replay) (string, string) {
+	replayNote = ""
 	switch r.Kind {
 	case "crash":
 		res := evalCrash(*r.Crash)
@@ -490,6 +495,7 @@ func replayOne(r Replay) (string, string) {
 		res, reproduced := evalTrimRace(*r.TrimRace)
 		if reproduced && ev.IsKnown(trimRaceSig(r.TrimRace.Shape)) {
 			ev.KnownFinding(trimRaceSig(r.TrimRace.Shape), "")
+			replayNote = "known finding " + trimRaceSig(r.TrimRace.Shape) + " reproduced: " + res.msg
 			return "", res.infra
 		}
 		return res.msg, res.infra
@@ -498,6 +504,7 @@ func replayOne(r Replay) (string, string) {
 		for sig, g := range res.gone {
 			if ev.IsKnown(sig) {
 				ev.KnownFinding(sig, "")
+				replayNote = "known finding " + sig + " reproduced"
 			} else if res.msg == "" {
 				return "[" + sig + "] " + g, res.infra
 			}
@@ -534,6 +541,8 @@ func replayFile(t *testing.T, f, test string) {
 	if msg != "" {
 		ev.Violate(test, fmt.Sprintf("replay of %s:\n%s", f, msg), "json", b)
 		t.Errorf("%s", msg)
+	} else if replayNote != "" {
+		t.Logf("replay %s: %s", f, replayNote)
 	} else {
 		t.Logf("replay %s: property holds", f)
 	}
